@@ -24,6 +24,9 @@ pub struct Case {
     /// also compare generated code of three separate build processes
     pub generated_code: bool,
     pub implicit_tokens: usize,
+    /// lexer-only build with a user-supplied rule_ids_map in which names may share an id
+    #[serde(default)]
+    pub custom_ids: Option<Vec<(String, u32)>>,
 }
 
 pub fn full_digest(kind: YKind, text: &str) -> Result<String, String> {
@@ -96,7 +99,7 @@ impl Prop for C15 {
         1000
     }
     fn cases(&self, tier: Tier) -> u32 {
-        tier.pick(6_000, 150_000)
+        tier.pick(100_000, 1_500_000)
     }
     fn watchdog_ms(&self) -> u64 {
         60_000
@@ -106,19 +109,31 @@ impl Prop for C15 {
         let c = gen_case(&mut ch, tier);
         let text = if c.entry == 1 { c.text[crate::props::c10::header_for(c.kind).len()..].to_string() } else { c.text };
         let cross_process = ch.chance(1, 25);
-        let generated_code = c.kind != YKind::Eco && ch.chance(1, 40);
+        let mut generated_code = c.kind != YKind::Eco && ch.chance(1, 40);
+        let mut lexer = lexer_for(&c.ag.tokens);
+        let mut custom_ids = None;
+        if ch.chance(1, 60) {
+            // the lexer by itself, token ids given by the user (as for a hand-written parser)
+            let pool = ["INT", "ID", "PLUS", "While", "x9", "_id", "T0", "T1", "INT_HEX", "INT_OCT"];
+            let n = ch.range(3, pool.len());
+            let ids: Vec<(String, u32)> = (0..n).map(|i| (pool[i].to_string(), ch.pick(3) as u32)).collect();
+            lexer = lexer_for(&ids.iter().map(|(n, _)| n.clone()).collect::<Vec<_>>());
+            custom_ids = Some(ids);
+            generated_code = true;
+        }
         serde_json::to_value(Case {
             kind: c.kind,
             text,
-            lexer: lexer_for(&c.ag.tokens),
+            lexer,
             cross_process,
             generated_code,
             implicit_tokens: c.ag.implicit_tokens.len(),
+            custom_ids,
         })
         .unwrap()
     }
     fn rule(&self) -> String {
-        "Grammars as C10 (all kinds; Eco with 1-3 %implicit_tokens and %avoid_insert sets whose maps are randomly seeded). Oracle: (a) the grammar + state graph + table are built 5 times in-process (fresh hash seeds per HashMap) and every build must give the same digest of all queries (state items with lookaheads per state number, edges, actions, gotos, conflicts as a sorted set); (b) for 1/25 of the cases 3 fresh processes must report the same digest; (c) for 1/40 of the non-Eco cases the compile-time builders are run in 3 separate processes on the same paths (output wiped in between) and the generated parser and lexer modules must be byte-identical after masking the build-time comment. (Thread part: see C13's batch.) Evaluation = one grammar. Non-trivial: >=2 implicit tokens, or >=8 states, or conflicts; distinct by hash(text).".into()
+        "Grammars as C10 (all kinds; Eco with 1-3 %implicit_tokens and %avoid_insert sets whose maps are randomly seeded). Oracle: (a) the grammar + state graph + table are built 5 times in-process (fresh hash seeds per HashMap) and every build must give the same digest of all queries (state items with lookaheads per state number, edges, actions, gotos, conflicts as a sorted set); (b) for 1/25 of the cases 3 fresh processes must report the same digest; (c) for 1/40 of the non-Eco cases (and for 1/60 of all cases the lexer alone with a user-supplied rule_ids_map of 3-10 identifier-like names onto ids 0..2, so names share ids) the compile-time builders are run in 3 separate processes on the same paths (output wiped in between) and the generated parser and lexer modules must be byte-identical after masking the build-time comment. (Thread part: see C13's batch.) Evaluation = one grammar. Non-trivial: >=2 implicit tokens, or >=8 states, or conflicts; distinct by hash(text).".into()
     }
     fn assumptions(&self) -> Vec<String> {
         vec![
@@ -127,7 +142,7 @@ impl Prop for C15 {
         ]
     }
     fn required_classes(&self, _tier: Tier) -> Vec<&'static str> {
-        vec!["implicit-tokens>=2", "cross-process", "generated-code", "kind:Eco", "with-conflicts"]
+        vec!["implicit-tokens>=2", "cross-process", "generated-code", "generated-code:lexer-with-user-ids", "kind:Eco", "with-conflicts"]
     }
     fn evaluate(&self, case: &Value) -> Outcome {
         let case: Case = serde_json::from_value(case.clone()).unwrap();
@@ -196,8 +211,12 @@ impl Prop for C15 {
                 yacckind: Some(format!("{:?}", case.kind)),
                 warnings_are_errors: Some(false),
                 error_on_conflicts: Some(false),
+                lexer_only_rule_ids: case.custom_ids.clone(),
                 ..CtSpec::default()
             };
+            if case.custom_ids.is_some() {
+                o.class("generated-code:lexer-with-user-ids");
+            }
             let mut prev: Option<(String, Option<String>, Option<String>)> = None;
             for k in 0..3 {
                 let _ = std::fs::remove_file(&spec.parser_out);
